@@ -271,7 +271,7 @@ func (e *explorer) report(f Finding, path []Sym) {
 	ok1, d1 := failsWith(e.disc, e.alpha, min, f.Assertion)
 	ok2, d2 := failsWith(e.disc, e.alpha, min, f.Assertion)
 	if !ok1 || !ok2 || d1 != d2 {
-		fmt.Fprintf(os.Stderr, "harness: replay of [%s] diverged\n", symsString(min))
+		fmt.Fprintf(os.Stderr, "harness: replay of [%s] diverged for %s: run 1 fails=%v %q; run 2 fails=%v %q\n", symsString(min), f.Assertion, ok1, d1, ok2, d2)
 		os.Exit(2)
 	}
 	e.r.AddViolation(core.Violation{
@@ -422,6 +422,14 @@ func main() {
 	}
 	if *depthFlag > 0 {
 		depth = *depthFlag
+	}
+	// the accumulator must be creatable and readable at all: a failure here is the library's, not the harness's
+	if p := tryf(func() { NewWorld("long"); NewWorld("stale") }); p != "" {
+		r.AddViolation(core.Violation{Property: r.Property, Assertion: "accumulator.readable", Signature: "accumulator.readable|setup",
+			Detail: "MakeAccumulator followed by GetAccumulator on an empty store failed: " + p, Replay: ReplayDoc{Disc: "long", Ops: nil, Assertion: "accumulator.readable"}})
+		r.States, r.Transitions = 1, 1
+		finish(f, r)
+		return
 	}
 	seen := core.NewSeen()
 	var es []*explorer
